@@ -69,6 +69,20 @@ def _family(prop, name):
     raise InternalError('no family %s in %s' % (name, prop))
 
 
+def safe_run_case(prop, fam, case):
+    try:
+        return fam.run_case(case)
+    except InternalError:
+        raise
+    except Exception as exc:
+        # an exception the check did not anticipate: on the unchanged tree this is a harness bug
+        # (seen during development); on a changed tree it is a behaviour change worth an alarm
+        tb = traceback.extract_tb(exc.__traceback__)
+        where = '%s:%s' % (os.path.basename(tb[-1].filename), tb[-1].name) if tb else '?'
+        return 'crash', [('%s|%s|unexpected-exception|%s|%s' % (prop, fam.name, type(exc).__name__, where),
+                          traceback.format_exc()[-1500:])], 1
+
+
 def _run_block(args):
     prop, famname, block, tier = args
     fam = _family(prop, famname)
@@ -80,18 +94,7 @@ def _run_block(args):
     samples = []
     try:
         for case in fam.cases(block, tier):
-            try:
-                outcome, vs, st = fam.run_case(case)
-            except InternalError:
-                raise
-            except Exception as exc:
-                # an exception the check did not anticipate: on the unchanged tree this is a harness bug
-                # (seen during development); on a changed tree it is a behaviour change worth an alarm
-                tb = traceback.extract_tb(exc.__traceback__)
-                where = '%s:%s' % (os.path.basename(tb[-1].filename), tb[-1].name) if tb else '?'
-                outcome, st = 'crash', 1
-                vs = [('%s|%s|unexpected-exception|%s|%s' % (prop, famname, type(exc).__name__, where),
-                       traceback.format_exc()[-1500:])]
+            outcome, vs, st = safe_run_case(prop, fam, case)
             n += 1
             steps += st
             casehashes.add(h64(jdump(case)))
@@ -289,7 +292,7 @@ def replay(prop, path, quiet=False):
     with open(path) as f:
         rec = json.load(f)
     fam = _family(prop, rec['family'])
-    outcome, vs, steps = fam.run_case(rec['case'])
+    outcome, vs, steps = safe_run_case(prop, fam, rec['case'])
     if not quiet:
         print('case: %s' % jdump(rec['case']))
         print('outcome: %s' % _short(outcome, 3000))
